@@ -17,6 +17,7 @@ mod parsework;
 mod pathnorm;
 mod prog;
 mod jsonmap;
+mod instances;
 
 fn main() {
     let args: Vec<String> = std::env::args().collect();
@@ -35,6 +36,7 @@ fn main() {
         "lifecycle" => lifecycle::main(&rest),
         "prog" => prog::main(&rest),
         "jsonmap" => jsonmap::main(&rest),
+        "instances" => instances::main(&rest),
         "modules" => modules::main(&rest),
         "orders" => orders::main(&rest),
         "gcmiri" => gcmiri::main(&rest),
